@@ -139,6 +139,13 @@ def _write_file(df, path, kind, rg, sep):
     import pyarrow as pa
     import pyarrow.parquet as pq
     if kind == "csv":
+        if df.attrs.get("int_text"):
+            # whole numbers of a float column written without a decimal point ("1000001", not "1000001.0"), as many tools do: a chunk
+            # holding only such rows is type-inferred as integers, a later chunk with a fractional value as floats
+            df = df.copy()
+            for c in df.attrs["int_text"]:
+                if c in df.columns:
+                    df[c] = pd.Series([int(x) if (x == x and float(x).is_integer()) else x for x in df[c].tolist()], dtype=object, index=df.index)
         df.to_csv(path, sep=sep, index=False)
     else:
         pq.write_table(pa.Table.from_pandas(df, preserve_index=False), path, row_group_size=max(1, int(rg)))
@@ -171,6 +178,11 @@ def read_case_layout(case):
         # missing values: every third cell of the float column is empty (text) / null (Parquet); the column then no longer
         # identifies a row, the request holds another identifying column
         df.loc[df.index[::3], "fv"] = np.nan
+    if case.get("whole_prefix") and len(df):
+        # the leading rows of the float column hold whole numbers (and are written as such in a text table), the later rows fractions
+        k = min(len(df), 1 + int(case["tseed"]) % 4)
+        df.loc[df.index[:k], "fv"] = 1.0e6 + np.arange(k)
+        df.attrs["int_text"] = ["fv"]
     phys = list(df.columns)
     if "abc" in case:
         abc = case["abc"]
@@ -181,6 +193,19 @@ def read_case_layout(case):
     return df, phys, abc, sep
 
 
+def rename_map(case, abc):
+    """the column map of the 'mapped' wraps: fresh names, or (mapkind) a SWAP of two names / a SHIFT a->b, b->c, c->new -- maps whose
+    new names are old names of other columns (a reader that renames a shared frame in place cannot survive them)"""
+    if "mapped" not in case["wrap"]:
+        return {}
+    mk_ = case.get("mapkind")
+    if mk_ == "swap":
+        return {abc[0]: abc[2], abc[2]: abc[0]}
+    if mk_ == "shift":
+        return {abc[0]: abc[1], abc[1]: abc[2], abc[2]: abc[2].upper() + "_m"}
+    return {abc[0]: abc[0].upper() + "_m", abc[2]: abc[2].upper() + "_m"}
+
+
 def run_read(case):
     from mokapot.tabular_data import DataFrameReader
     from mokapot.streaming import JoinedTabularDataReader, ComputedTabularDataReader
@@ -188,7 +213,7 @@ def run_read(case):
     src = Source(df)
     R, c, rg, base, wrap = case["R"], int(case["c"]), case["rg"], case["base"], case["wrap"]
     suffix = case.get("suffix", ".csv")
-    ren = {abc[0]: abc[0].upper() + "_m", abc[2]: abc[2].upper() + "_m"} if "mapped" in wrap else {}
+    ren = rename_map(case, abc)
     names = [ren.get(x, x) for x in phys]                      # delivered names, reader order
     src_of = {ren.get(x, x): x for x in phys}
     abstract = [ren.get(x, x) for x in abc]
@@ -226,6 +251,10 @@ def run_read(case):
                     info["empty_sub"] = base
                 elif not set(req) & set(rcols):
                     info["empty_sub"] = rk
+        if case.get("preread"):
+            # earlier whole reads on the same reader (their results are not judged); the computed-column reader takes an explicit list only
+            reader.read(columns=list(names)) if "computed" in wrap else reader.read()
+            reader.read(columns=list(names)) if "computed" in wrap else reader.read()
         whole = reader.read(columns=req)
         tr["whole"] = src.project(whole, src_of)
         for ch in reader.get_chunked_data_iterator(chunk_size=c, columns=req):
@@ -423,10 +452,11 @@ def random_reader_cases(rng, count, nmax):
                 "suffix": CSV_SUFFIXES[int(rng.integers(0, len(CSV_SUFFIXES)))],
                 "sep": "," if rng.random() < 0.2 else "\t",
                 "right": ["csv", "parquet", "frame"][int(rng.integers(0, 3))], "rg2": int(rng.integers(1, R + 3)),
-                "nan_fv": bool(i % 4 == 1), "custom_index": bool(i % 3 == 2)}
+                "nan_fv": bool(i % 4 == 1), "custom_index": bool(i % 3 == 2),
+                "mapkind": [None, "swap", "shift"][(i // 5) % 3], "preread": bool((i // 2) % 2), "whole_prefix": bool(i % 4 == 3)}
         # request: None or a random ordered subset of the delivered names holding an identifying column
         df, phys, abc, _ = read_case_layout(case)
-        ren = {abc[0]: abc[0].upper() + "_m", abc[2]: abc[2].upper() + "_m"} if "mapped" in case["wrap"] else {}
+        ren = rename_map(case, abc)
         names = [ren.get(x, x) for x in phys] + ([KCOL] if "computed" in case["wrap"] else [])
         if rng.random() < 0.25 and "computed" not in case["wrap"]:
             pass                                                    # columns = None
